@@ -42,7 +42,7 @@ func IsChild() (*Spec, bool) {
 // Outcome is what the parent learns about one child.
 type Outcome struct {
 	ExitOK   bool
-	Killed   bool   // watchdog killed it (SIGQUIT)
+	Killed   bool // watchdog killed it (SIGQUIT)
 	Records  []map[string]any
 	LastLog  string // last line of the progress log: the input in flight when it died
 	Stderr   string // tail of stderr (panic message / goroutine dump)
